@@ -394,3 +394,22 @@ func vFP(pos string) {
 		panic("verif: arbitrary panic value")
 	}
 }
+
+// vRawObserver is a hand-written Observer[int64] with no closed flag of its own:
+// whatever reaches it is recorded (NewObserver-built observers drop late
+// notifications themselves and so mask a subscriber that lets them through).
+type vRawObserver struct{ r *vRecorder }
+
+var _ Observer[int64] = (*vRawObserver)(nil)
+
+func (o *vRawObserver) Next(v int64)                                  { o.NextWithContext(context.Background(), v) }
+func (o *vRawObserver) NextWithContext(ctx context.Context, v int64) { o.r.enter(vkNext, []int64{v}, nil, ctx) }
+func (o *vRawObserver) Error(err error)                               { o.ErrorWithContext(context.Background(), err) }
+func (o *vRawObserver) ErrorWithContext(ctx context.Context, err error) {
+	o.r.enter(vkError, nil, err, ctx)
+}
+func (o *vRawObserver) Complete()                               { o.CompleteWithContext(context.Background()) }
+func (o *vRawObserver) CompleteWithContext(ctx context.Context) { o.r.enter(vkComplete, nil, nil, ctx) }
+func (o *vRawObserver) IsClosed() bool                          { return false }
+func (o *vRawObserver) HasThrown() bool                         { return false }
+func (o *vRawObserver) IsCompleted() bool                       { return false }
